@@ -5,3 +5,4 @@ import Props.C06
 import Props.C16
 import Props.C14
 import Props.C19
+import Props.C20
